@@ -228,6 +228,14 @@ def streams(ctx):
             for val in vals:
                 s = b"".join(message(i, pl, (field, val) if i == posn else None) for i, pl in enumerate(base))
                 out.append((f"corrupt-msg{posn}-{field}={val}", s, None, False))
+    # every value of the protocol version, message type and return code bytes of the middle message (payload 17 bytes),
+    # cut at a few positions around that message: both decoders must draw the same line between valid and invalid
+    m0, m2 = message(0, 1), message(2, 0)
+    for field in ("protover", "mtype", "code"):
+        for val in range(256):
+            s = m0 + message(1, 17, (field, val)) + m2
+            a = len(m0)
+            out.append((f"sweep-{field}={val}", s, sorted({0, a, a + 12, a + 14, a + 15, a + 16, a + 20, a + 33, len(s)}), False))
     # the same header twice (or three times) in a row, a later copy with one corrupted field: a reader that
     # remembers the previous header must still validate the next one
     for nrep in (2, 3):
